@@ -221,7 +221,7 @@ func (x *vc) backEdges(fr *frame, st *state, b *ssa.BasicBlock) {
 		if fr.fc != nil {
 			for i, inv := range fr.fc.invs[li.ordinal] {
 				g := x.evalBool(env, inv.expr)
-				x.oblige(est, "inv-step", fmt.Sprintf("%sloop%d.%d", x.framePrefix(fr), li.ordinal, i), g, pos, "loop invariant preserved: "+inv.text, false)
+				x.oblige(est, "inv-step", fmt.Sprintf("%sloop%d.%d%s", x.framePrefix(fr), li.ordinal, i, dotTag(inv.tag)), g, pos, "loop invariant preserved: "+inv.text, false)
 			}
 			if d := fr.fc.decr[li.ordinal]; d != nil {
 				v := x.evalInt(env, d.expr)
@@ -329,6 +329,7 @@ func (x *vc) execInstr(fr *frame, st *state, instr ssa.Instruction) {
 			name, _ := x.cellArr(st, et)
 			x.storeLV(st, &lvalue{arr: name, ref: r}, x.srt.zero(et))
 		}
+		x.allocInvariant(st, in, pos)
 		fr.vals[in] = v
 	case *ssa.Store:
 		addr := x.value(fr, st, in.Addr)
@@ -349,6 +350,7 @@ func (x *vc) execInstr(fr *frame, st *state, instr ssa.Instruction) {
 			v = x.freshVal("opaque", in.Val.Type(), st)
 			v.Fn = nil
 		}
+		x.storeInvariant(fr, st, in.Addr, in.Val, v, pos)
 		x.store(st, addr, v)
 		x.trackFnStore(fr, st, addr, x.value(fr, st, in.Val))
 	case *ssa.UnOp:
@@ -393,7 +395,13 @@ func (x *vc) execInstr(fr *frame, st *state, instr ssa.Instruction) {
 	case *ssa.Go:
 		x.note("%s: go statement outside subset", fnKey(fr.fn))
 	case *ssa.MakeInterface:
-		fr.vals[in] = x.makeInterface(st, x.value(fr, st, in.X), in.X.Type(), in.Type())
+		ov := x.value(fr, st, in.X)
+		if x.nn("payload", typeKey(in.Type())) && !strings.HasPrefix(ov.T, "alloc_") {
+			if _, isPtr := in.X.Type().Underlying().(*types.Pointer); isPtr {
+				x.oblige(st, "nonnil", "payload", not(eq(ov.T, "0")), pos, "invariant: a value of interface type "+typeKey(in.Type())+" never holds a nil pointer", true)
+			}
+		}
+		fr.vals[in] = x.makeInterface(st, ov, in.X.Type(), in.Type())
 	case *ssa.ChangeInterface:
 		v := x.value(fr, st, in.X)
 		fr.vals[in] = Val{T: v.T, Typ: in.Type()}
@@ -565,6 +573,7 @@ func (x *vc) unop(fr *frame, st *state, in *ssa.UnOp, pos string) Val {
 			n := x.define("ld_"+in.Name(), x.srt.sortOf(r.Typ), r.T)
 			x.assume(st.guard, x.typeInv(n, r.Typ, st))
 			r.T = n
+			x.loadInvariant(st, in.X, r)
 		}
 		return r
 	case token.NOT:
